@@ -8,7 +8,7 @@ RULE = ("trees {A=base(L), B=base(L) with one byte flipped at offset o, C=base(L
         "for L in {0,1,4095,4096,4097,16383,16384,16385,65535,65536,65537,131073} and o in "
         "{0,4095,4096,16383,16384,L-4097,L-4096,L/2,L-1}; x hash function x pinned disk kind (x cache, prefix/suffix "
         "sizes, -t 1 in thorough); transform sub-space: keep/shrink/double/prefix programs x 5 I/O modes on trees that "
-        "differ before / only beyond the input length. Oracle: every reported group is re-read and compared byte for "
+        "differ before / only beyond the input length; cache histories: warm `--cache` run, then one member of a group gets the other class's bytes at the same length with its mtime moved forward / backward by seconds or by 1 ms, or by a rename over it / a swap of two files, then a second cached run. Oracle: every reported group is re-read and compared byte for "
         "byte (transform output for --transform), file_len == that length. Non-trivial = a run that reported at least "
         "one group of >= 2 paths; distinct by (tree, configuration).")
 ASSUMPTIONS = ["--skip-content-hash is never passed (excluded by the statement)",
@@ -127,6 +127,14 @@ def cases(tier, seed):
         out.append(mk([], "twofs", L, o, "metro", "ssd", G.transform_args("keep", "pipe") + ["--rf-over", "1"], tr=["keep", "pipe"]))
         if not quick:
             out.append(mk([], "twofs", L, o, "blake3", "ssd", ["--cache"], repeat=1))
+    # ---- cache histories: a warm cache, then a same-length rewrite of one member of a reported group
+    for L, o in ((10, 9), (5000, 4999), (70000, 35000)) if quick else ((10, 9), (4096, 0), (5000, 4999), (16384, 8000), (70000, 35000), (70000, 69999), (131073, 65536)):
+        for edit in CACHE_EDITS:
+            for h, d, extra in ((("metro", "ssd", []), ("blake3", "unknown", [])) if quick else
+                                [(h, d, x) for h in ("metro", "blake3", "sha256") for d in DISKS
+                                 for x in ([], G.transform_args("keep", "pipe") + ["--rf-over", "1"])]):
+                out.append(mk(tree_two(L, o), "cachehist", L, o, h, d, ["--cache"] + extra, tr=["keep", "pipe"] if extra else None))
+                out[-1]["meta"]["edit"] = edit
     # ---- transform sub-space
     ops = ["keep", "shrink", "double", "prefix"]
     modes = ["pipe", "in", "out", "inout", "inplace"]
@@ -148,6 +156,68 @@ def cases(tier, seed):
                 c["timeout"] = 600
                 out.append(c)
     return out
+
+
+CACHE_EDITS = ["rewrite_newer", "rewrite_older", "rewrite_plus_1ms", "rewrite_minus_1ms", "replace_by_rename",
+               "swap_by_rename"]
+
+
+def evaluate_cachehist(case):
+    """`group --cache` on {A1=A2, B1=B2}; then A1 gets B's bytes (same length) with its modification time moved
+    forward / backward (by seconds or by one millisecond), or by renaming another file over it; `group --cache` again.
+    Every group of the second report is re-read and compared byte for byte."""
+    import os
+    meta = case["meta"]
+    viol = []
+    with C.Scratch() as sc:
+        C.make_tree(sc.tree, case["tree"])
+        a1, a2, b1, b2 = (os.path.join(sc.tree, e["p"]) for e in case["tree"])
+        t0 = 1_700_000_000_000_000_000
+        for i, p in enumerate((a1, a2, b1, b2)):
+            os.utime(p, ns=(t0, t0 + i * 1_000_000_000))
+        run1 = C.fclones(["group"] + case["args"] + ["r", "-f", "json"], sc, env_extra=case["env"])
+        edit = meta["edit"]
+        bdata = C.read_file(b1)
+        old = os.stat(a1).st_mtime_ns
+        if edit.startswith("rewrite"):
+            with open(a1, "r+b") as f:
+                f.write(bdata)
+            new = {"rewrite_newer": old + 5_000_000_000, "rewrite_older": old - 3600_000_000_000,
+                   "rewrite_plus_1ms": old + 1_000_000, "rewrite_minus_1ms": old - 1_000_000}[edit]
+            os.utime(a1, ns=(new, new))
+        elif edit == "replace_by_rename":
+            tmp = a1 + ".new"
+            with open(tmp, "wb") as f:
+                f.write(bdata)
+            os.utime(tmp, ns=(old - 1_000_000_000, old - 1_000_000_000))
+            os.rename(tmp, a1)
+        elif edit == "swap_by_rename":
+            # A1 and B1 trade places (each keeps its inode and times)
+            os.rename(a1, a1 + ".x")
+            os.rename(b1, a1)
+            os.rename(a1 + ".x", b1)
+        rc, out, err, to = C.fclones(["group"] + case["args"] + ["r", "-f", "json"], sc, env_extra=case["env"])
+        nontrivial = None
+        outcome = "error_exit"
+        if rc == 0 and not to and run1[0] == 0:
+            rep = C.parse_json_report(out)
+            outcome = "groups" if rep.groups else "no_groups"
+            for g in rep.groups:
+                datas = [(C.u(p), C.read_file(p)) for p in g["paths"]]
+                if len(datas) >= 2:
+                    nontrivial = ["cachehist", meta["L"], meta["o"], meta["hash"], meta["disk"], meta["extra"], edit]
+                bad = [p for p, d in datas if d != datas[0][1]]
+                if bad:
+                    viol.append({"kind": "non_identical_group", "transform": "keep" if meta["tr"] else "none",
+                                 "differs_only_beyond_input_len": False,
+                                 "first_stage_that_could_see_the_difference": "stale_cache_after_" + edit,
+                                 "detail": "after a warm `group --cache` run and edit %s of %s, the next cached run groups files with "
+                                           "different bytes: %s vs %s; args %s" % (edit, a1, datas[0][0], bad[0], case["args"])})
+                elif g["len"] != len(datas[0][1]):
+                    viol.append({"kind": "wrong_length", "transform": "keep" if meta["tr"] else "none",
+                                 "detail": "group reports length %d, members have %d bytes" % (g["len"], len(datas[0][1]))})
+    return {"violations": viol, "nontrivial": nontrivial, "outcome": outcome, "counters": {"cache_history_cases": 1},
+            "sample": {"kind": "cachehist", "args": case["args"], "meta": meta}}
 
 
 def evaluate_twofs(case):
@@ -199,6 +269,8 @@ def evaluate(case):
     meta = case["meta"]
     if meta["kind"] == "twofs":
         return evaluate_twofs(case)
+    if meta["kind"] == "cachehist":
+        return evaluate_cachehist(case)
     obs = G.run_group(case)
     viol = []
     files = obs["files"]["files"]
@@ -262,6 +334,8 @@ def finish(stats, tier):
             out.append("no case in which the differing byte is first visible to the %s" % st)
     if not c.get("transform_cases"):
         out.append("no transform case")
+    if not c.get("cache_history_cases"):
+        out.append("no cache history case")
     if not stats["outcomes"].get("groups"):
         out.append("no run reported any group")
     return out
